@@ -22,6 +22,12 @@ partial def xdeclOfJson (j : Json) : Except String XDecl := do
       pure ((← p[0]!.getStr?), (← valOfJson p[1]!))
     pure (.enumVal (← (← j.getObjVal? "cls").getStr?) ms (← optBool j "mixin" false))
   | "temporal" => pure (.temporal (← (← j.getObjVal? "ty").getStr?) (← (← j.getObjVal? "fmt").getStr?) (← optBool j "ints" false))
+  | "enumName" => do
+    let ms ← (← (← j.getObjVal? "members").getArr?).toList.mapM fun kv => do
+      let p ← kv.getArr?
+      pure ((← p[0]!.getStr?), (← valOfJson p[1]!))
+    pure (.enumName (← (← j.getObjVal? "cls").getStr?) ms (← optBool j "mixin" false))
+  | "fmtStr" => pure (.fmtStr (← (← j.getObjVal? "kind").getStr?) (← optBool j "strict" true))
   | "opt" => pure (.opt (← xdeclOfJson (← j.getObjVal? "x")))
   | "seqOf" => pure (.seqOf (← seqKind j) (← xdeclOfJson (← j.getObjVal? "x")))
   | "setOf" => pure (.setOf (← xdeclOfJson (← j.getObjVal? "x")))
@@ -57,7 +63,25 @@ def xoraclesOfJson (j : Json) : Except String XOracles := do
     | some x => (← x.getArr?).toList.mapM fun t => do
       let a ← t.getArr?
       pure ((← a[0]!.getStr?) ++ "/" ++ (← a[1]!.getStr?), (← a[2]!.getStr?), (← a[3]!.getStr?))
+  -- rows [kind, string, ok]
+  let fo : List (String × String × Bool) ← match optField j "fmtOk" with
+    | none => pure []
+    | some x => (← x.getArr?).toList.mapM fun t => do
+      let a ← t.getArr?
+      pure ((← a[0]!.getStr?), (← a[1]!.getStr?), (← a[2]!.getBool?))
+  -- rows [string, null (not modelled) | false (not a number) | [num, den]]
+  let ds : List (String × Option (Option Q)) ← match optField j "decOfStr" with
+    | none => pure []
+    | some x => (← x.getArr?).toList.mapM fun t => do
+      let a ← t.getArr?
+      let r : Option (Option Q) ← match a[1]! with
+        | .null => pure none
+        | .bool _ => pure (some none)
+        | y => do pure (some (some (← qOfJson y)))
+      pure ((← a[0]!.getStr?), r)
   pure { base,
+         decOfStr := fun s => match ds.find? (fun t => t.1 == s) with | some t => t.2 | none => none,
+         fmtOk := fun k s => match fo.find? (fun t => t.1 == k && t.2.1 == s) with | some t => t.2.2 | none => false,
          toFloat := fun q => match tf.find? (fun t => decide (t.1 = q)) with | some t => t.2 | none => q,
          parse := fun ty fmt s => match ps.find? (fun t => t.1 == ty ++ "/" ++ fmt && t.2.1 == s) with | some t => t.2.2 | none => none,
          typeOf := fun t => String.ofList (t.toList.takeWhile (· != ':')),
